@@ -165,9 +165,12 @@ func (s *Session) process() {
 		// 重置到初始状态
 		// 注意：不能把 s.conn 置为 nil，消费者的发送 routine 可能刚通过 closed 检查，
 		// 正要向 s.conn 写入；向已关闭的连接写入只会返回错误
+		// s.consumer 同理: the delivery goroutine reads it (Session.Consume) without a
+		// lock and may still be running; overwriting the interface value under it is a
+		// torn read - a type word and a data word of different consumers. It stays set;
+		// the consumer is closed and ignores what still arrives
 		s.status = statusInit
 		s.stream = defaultStream
-		s.consumer = defaultConsumer
 		s.logger.Infof("close rtsp session")
 	}()
 
